@@ -385,7 +385,8 @@ def canon_M(m):
             "vars": sorted(o["vars"]),
             # (the evaluation models of the real side are built without initial_labels: a stray variable that an
             # out-of-range initial position created exists only in the structure build; it takes part in no reaction)
-            "rhs": [{"ok": sorted(x for x in r if x[0] in listed)} for r in o["rhs"]]}
+            "rhs": [({"ok": sorted(x for x in r if x[0] in listed)} if isinstance(r, list) else {"err": [r["err"][0]]})
+                    for r in o["rhs"]]}
 
 
 def evaluate(cases, use_driver=True):
@@ -451,10 +452,23 @@ def judge_case(ctx, case, R, M):
             continue
         Mr = None if M is None else M["rhs"][k]
         k += 1
+        if "err" in res["lin"]:
+            res = dict(res, lin={"err": [res["lin"]["err"][0]]})  # the class, not the message
         if not allperm:
             ctx.judge(one, res["lin"], res["lin"], Mr, what="linear RHS real vs model")
             continue
         steady = all(v == "0" for _, v in res["base_rhs"])
+        if ev.get("zero_pool"):
+            # `∓1/pool` is a Derived coefficient: a zero pool of a compound with a per-position reaction is a
+            # ZeroDivisionError for the whole right-hand side (no guard); a zero pool nobody divides by is harmless
+            zc = {x for x, v in ev["direct"]["C"] if Fraction(v) == 0}
+            used = {a[2] for _, _, st in spec_linear_rxns(case) for a in st}
+            Rl = res["lin"] if "ok" in res["lin"] else {"err": [res["lin"]["err"][0]]}
+            S = {"err": ["ZeroDivisionError"]} if zc & used else spec_linear_rhs(case, res, ev.get("ext", "1"))
+            ctx.hist["eval:zero_pool"] = ctx.hist.get("eval:zero_pool", 0) + 1
+            ctx.judge(one, Rl, S, Mr, finding=F_DIRECTION if noninv else None,
+                      what="linear RHS at a zero pool: ZeroDivisionError iff a per-position reaction divides by it")
+            continue
         if "direct" in ev and "ok" not in res["lin"]:
             ctx.violation(one, res, "evaluation of the real linear model failed")
             continue
@@ -619,6 +633,12 @@ def with_evals(rng, case, n_states=2, try_steady=True):
         case["base"] = dict(case["base"], pars=[[k, scaled(v, fe)] for k, v in case["base"]["pars"]])
         evals = [{"state": gen_iso_state(rng, case), "ext": "1"} for _ in range(n_states)]
     evals.append(direct_eval(rng, case))
+    if rng.random() < 0.15:
+        z = direct_eval(rng, case)
+        j = rng.randrange(len(z["direct"]["C"]))
+        z["direct"]["C"][j][1] = "0"
+        z["zero_pool"] = True
+        evals.append(z)
     case["evals"] = evals
     return case
 
